@@ -67,4 +67,19 @@ def handleVol (args : List String) : String :=
       Proto.showFloat (Gen.VolTerms.nodeVolume acc.toUInt64.toNat vs a b c d e)
   | some "pasym", some [n1, n2] => Proto.showFloat (Gen.LM.partitionAsymmetry n1 n2)
   | _, _ => "bad-args"
+
+/-- `voltree acc=<n> nodes=s:f:p:c:l:q;s:f:p:c:l:q;…` → Σ nodeVolume (the `volume += v` accumulation) -/
+def handleVolTree (args : List String) : String :=
+  match Proto.argNat args "acc", Proto.arg args "nodes" with
+  | some acc, some ns =>
+    let rows := (ns.splitOn ";").filter (· ≠ "")
+    let vals := rows.mapM (fun r => (r.splitOn ":").mapM Proto.float?)
+    match vals with
+    | none => "bad-args"
+    | some vs =>
+      let tot := vs.foldl (fun a v => match v with
+        | [s, f, p, c, l, q] => a + Gen.VolTerms.nodeVolume acc s f p c l q
+        | _ => a + (0.0 / 0.0)) 0.0
+      Proto.showFloat tot
+  | _, _ => "bad-args"
 end Geom
